@@ -750,8 +750,11 @@ class Messenger(Connection):
                 return
             if self._tls_attempt:
                 # flush the buffers ahead of TLS
-                while self.__tx_buf:
+                while self.__tx_buf and self.get_app_socket() is not None:
                     self._avail_tx_notls()
+                if self.get_app_socket() is None:
+                    # the connection was lost while flushing
+                    return
 
                 # Either case, TLS handshake begins
                 try:
